@@ -53,7 +53,7 @@ func genJval(t *rapid.T, depth int) *jval {
 	switch {
 	case k <= 1:
 		v := &jval{K: "obj"}
-		for i, n := 0, rapid.IntRange(0, 4).Draw(t, "members"); i < n; i++ {
+		for i, n := 0, rapid.IntRange(0, 3+min(depth, 1)).Draw(t, "members"); i < n; i++ {
 			v.Keys = append(v.Keys, jsonKeys[rapid.IntRange(0, len(jsonKeys)-1).Draw(t, "key")])
 			v.Members = append(v.Members, genJval(t, depth-1))
 		}
@@ -338,7 +338,7 @@ func TestC16(t *testing.T) {
 			n = rapid.IntRange(2, 3).Draw(t, "topValues")
 		}
 		for i := 0; i < n; i++ {
-			v := genJval(t, 4)
+			v := genJval(t, rapid.IntRange(2, 9).Draw(t, "maxDepth"))
 			c.Values = append(c.Values, v)
 			sb.WriteString(jws(t))
 			renderJSON(t, v, &sb)
@@ -382,7 +382,12 @@ func TestC16(t *testing.T) {
 		renderJSON(t, v, &sb)
 		text := sb.String()
 		c := &c16BadCase{}
-		switch rapid.IntRange(0, 3).Draw(t, "how") {
+		switch rapid.IntRange(0, 4).Draw(t, "how") {
+		case 4:
+			// an incomplete scalar at top level, alone or after complete values
+			frag := []string{"\"abc", "\"a\\", "tru", "fals", "nul", "-", "1.", "1e", "1e+", ".5", "+1", "\"\\u12", "t", "n", "'x'", "\"a\nb\""}[rapid.IntRange(0, 15).Draw(t, "fragment")]
+			pre := []string{"", "", "1 ", "[1] ", "{\"a\":1} ", "\"s\" ", "null\n"}[rapid.IntRange(0, 6).Draw(t, "before")]
+			c.Text, c.How = pre+frag, "incomplete scalar at top level"
 		case 0, 1:
 			// a strict prefix cut before the final bracket
 			cut := rapid.IntRange(1, len(text)-1).Draw(t, "cut")
